@@ -353,7 +353,8 @@ class Torrent():
         files = tuple(f for f in files if not (f.size <= 0 and os.path.exists(f)))
         files = utils.filter_files(files, getter=relpath_with_parent,
                                    exclude=exclude, include=include,
-                                   hidden=False, empty=True)
+                                   hidden=False, empty=True,
+                                   basepath=basepath and abspath(basepath).name)
 
         info = self.metainfo['info']
         if not files or all(f.size <= 0 for f in files):
